@@ -1760,6 +1760,13 @@ def _m_res_branch(ev, a, t, d):
 
 
 def _m_res_from_residual(ev, a, t, d):
+    # `?` between equal error types goes through `impl<T> From<T> for T`: the identity
+    tys = [ta["d"].get("s") for ta in (t.get("targs") or [])] if isinstance(t, dict) else []
+    if len(tys) == 2 and tys[0] and tys[1] and tys[0].startswith("core::result::Result<") and tys[1].startswith("core::result::Result<core::convert::Infallible, "):
+        e_to = tys[0][:-1].rsplit(", ", 1)[-1]
+        e_from = tys[1][len("core::result::Result<core::convert::Infallible, "):-1]
+        if e_to == e_from and "<" not in e_to:
+            return res_match(a[0], lambda x: ("unreachable",), lambda e: err(e))
     return res_match(a[0], lambda x: ("unreachable",), lambda e: err(("conv", e)))
 
 
